@@ -23,6 +23,9 @@ def run_one(pid, tier, repo_root, seed):
         repo = Repo(repo_root)
         chk = Check(pid, tier, repo_root, level=getattr(mod, "LEVEL", "other"), seed=seed)
         mod.run(chk, repo)
+        if tier == "thorough" and not os.environ.get("VERIF_NO_SELFTEST") and not chk.violations:
+            # only meaningful on a tree that holds: on a violating tree the verdict is the violation
+            selftest(chk, pid)
         return chk.finish()
     except AnalysisError as e:
         print(f"ANALYSIS-ERROR property={pid} {e}")
@@ -31,6 +34,31 @@ def run_one(pid, tier, repo_root, seed):
         traceback.print_exc()
         print(f"ANALYSIS-ERROR property={pid} internal error in the checker (traceback above)")
         return 2
+
+
+def selftest(chk, pid):
+    """thorough tier: the property's mutation self-test (breaking variants must be reported, preserving
+    variants must stay silent) on scratch copies; a failure means the checker is broken -> exit 2"""
+    import multiprocessing
+    here = os.path.dirname(os.path.dirname(os.path.abspath(__file__)))
+    sys.path.insert(0, os.path.join(here, "selftest"))
+    import run as st_run
+    from variants import VARIANTS
+    vs = [dict(v, props=[pid]) for v in VARIANTS if v["props"][0] == pid]
+    if not vs:
+        return
+    os.environ["SELFTEST_REPO"] = chk.repo_root
+    os.environ["VERIF_NO_SELFTEST"] = "1"
+    with multiprocessing.Pool(min(16, len(vs))) as pool:
+        res = pool.map(st_run.run_variant, vs)
+    bad = [(v["id"], status, info[:200]) for v, status, info in res if status not in ("ok", "BROKEN-VARIANT")]
+    skipped = [v["id"] for v, status, info in res if status == "BROKEN-VARIANT"]
+    n_m = sum(1 for v in vs if v["expect"] == "M")
+    chk.extra["selftest"] = {"variants": len(vs), "breaking": n_m, "preserving": len(vs) - n_m, "failed": bad,
+                             "not_applicable_to_this_tree": skipped,
+                             "rule": "each variant is a textual edit of the package applied to a scratch copy; breaking variants must exit 1 naming the instance, preserving variants must exit 0"}
+    if bad:
+        raise AnalysisError(f"self-test of the {pid} checker failed: {bad[:3]}")
 
 
 def main():
